@@ -7,7 +7,12 @@ LEVEL = "model_checking"
 
 
 def _sig(v, beh):
-    return f"C11:{v['prop']}:{beh['gen']}:{beh['jidcfg']}:{v['c']}/{v['w']}/{v['i']}"
+    # jid config at the time of the failing stanza; a failure after the application switched the account of the live
+    # client object is a different input class
+    own = v.get("own", beh["jidcfg"])
+    how = v.get("how", "none")
+    return (f"C11:{v['prop']}:{beh['gen']}:{own}:{v['c']}/{v['w']}/{v['i']}"
+            + (f":reconfigured-by-{how}" if how != "none" else ""))
 
 
 def run(chk, replay=None):
@@ -22,8 +27,16 @@ def run(chk, replay=None):
         allp, st2 = vf.tlc_gen("CarbonsGen.tla", "CarbonsGenAll.cfg" if quick else "CarbonsGenAll4.cfg")
         sim, st3 = vf.tlc_simulate("CarbonsGen.tla", "CarbonsGenTour.cfg", num=150 if quick else 3000, depth=8,
                                    seed=chk.seed, workers=2)
-        behs = vf.maximal_behaviours(tour + allp + sim)
-        chk.cov["generation"] = {"tour": st1, "all_paths": st2, "simulate": st3}
+        # the application switches the account of the live client object between stanzas:
+        # (a) Recv(OwnBare, sent) ; Reconfigure(j, how) ; every Recv of a representative vocabulary (tour),
+        # (b) all sequences of Recv / Reconfigure to depth 3 (thorough 4) over a reduced vocabulary, (c) random walks
+        rtour, st4 = vf.tlc_gen("CarbonsGen.tla", "CarbonsGenReconf.cfg")
+        rall, st5 = vf.tlc_gen("CarbonsGen.tla", "CarbonsGenReconfAll.cfg" if quick else "CarbonsGenReconfAll4.cfg")
+        rsim, st6 = vf.tlc_simulate("CarbonsGen.tla", "CarbonsGenSimReconf.cfg", num=150 if quick else 3000, depth=8,
+                                    seed=chk.seed, workers=2)
+        behs = vf.maximal_behaviours(tour + allp + sim + rtour + rall + rsim)
+        chk.cov["generation"] = {"tour": st1, "all_paths": st2, "simulate": st3, "reconfigure_tour": st4,
+                                 "reconfigure_all_paths": st5, "reconfigure_simulate": st6}
     vf.write_ndjson(chk.path("behaviours.ndjson"), behs)
     # 3. replay on the real client + carbon manager
     trace = chk.path("trace.ndjson")
@@ -36,9 +49,13 @@ def run(chk, replay=None):
     s = vf.tlc_trace("CarbonsTrace.tla", "CarbonsTrace.cfg", trace)
     chk.cov["traces_validated_against_impl"] = s["cases"]
     chk.cov["trace_lines"] = s["lines"]
-    chk.cov["stanzas_injected"] = s["lines"] - s["cases"]
+    chk.cov["stanzas_injected"] = s["lines"] - s["cases"] - s["reconfigured"]
     chk.cov["stanzas_unwrapped"] = s["unwrapped"]
     chk.cov["stanzas_shown_as_outer"] = s["outer"]
+    chk.cov["account_switches_on_live_client"] = s["reconfigured"]
+    chk.cov["carbons_from_previous_own_bare_jid"] = s["prevowncarbons"]
+    if not replay and s["prevowncarbons"] == 0:
+        raise vf.MachineryError("no carbon from the previously configured bare JID was injected: the Reconfigure dimension is vacuous")
     chk.cov["property_failures"] = s["nviol"]
     chk.cov["diverged_executions"] = s["ndiv"]
     chk.cov["first_divergences"] = s["divs"][:3]
@@ -57,12 +74,14 @@ def run(chk, replay=None):
         idx = int(v["case"][1:]) - 1
         b = behs[idx]
         sig = _sig(v, b)
-        key = (v["prop"], b["gen"], v["c"])      # one report per property, generation and sender class
+        key = (v["prop"], b["gen"], v["c"], v.get("how", "none"))   # one report per property, generation, sender class, switch
         if key in seen:
             continue
         seen.add(key)
         ln = lines[v["line"] - 1]
-        chk.violation(sig, f"{v['prop']} fails: gen={b['gen']} own={ln['x']['own']!r} outer from={ln['x']['ofrom']!r} "
+        sw = (f" after the application switched the account of the live client object ({v['how']})"
+              if v.get("how", "none") != "none" else "")
+        chk.violation(sig, f"{v['prop']} fails{sw}: gen={b['gen']} own={ln['x']['own']!r} outer from={ln['x']['ofrom']!r} "
                            f"(class {v['c']}), wrapper {v['w']}, inner {v['i']}: application was shown {ln['shown']}",
                       [b] + cases[v["case"]])
         if len(chk.violations) >= 8:
@@ -70,5 +89,8 @@ def run(chk, replay=None):
     chk.assumptions += ["sender classes are concretised into finitely many spellings (fixed list + seeded random) per class",
                         "a sender that differs from the configured bare JID only in letter case denotes the same address: "
                         "unwrapping it is permitted (the code does not)",
+                        "the application changes the account of a live client object only between stanzas, in one of four ways: "
+                        "configuration().setJid(), setUser()+setDomain(), assigning a fresh QXmppConfiguration, copy + setJid() + "
+                        "assign back; the configured identity (ground truth) is user()@domain()",
                         "outer, wrapped and second-level messages carry pairwise distinct ids and bodies, so a message shown "
                         "to the application can be attributed"]
